@@ -19,8 +19,9 @@ InDomain(order, f, sep) ==
   /\ \A i \in 1..3 : f[i][1] \in {1, 2, 4} /\ f[i][2] >= 0
   /\ f[PosOf(order, "Y")][1] = 4
   /\ LET r == Reading(order, f) IN ValidDate(r[1], r[2], r[3])
-  \* a year-last date joined by '-' whose year spells a UTC offset is read as "<date> -HHMM"
-  /\ ~(sep = "-" /\ OrderLetters(order)[3] = "Y" /\ IsOffsetSpelling(f[3][2]))
+\* known finding C07-year-as-offset: a year-last date joined by '-' whose year spells a UTC offset (0000 .. 1400, 0530 ...)
+\* is read as "<day-month> -HHMM": the year is lost and an offset attached
+YearAsOffset(order, f, sep) == sep = "-" /\ OrderLetters(order)[3] = "Y" /\ IsOffsetSpelling(f[3][2])
 
 Expected(order, f, tm) ==
   LET r == Reading(order, f) IN <<r[1], r[2], r[3], tm[1], tm[2], tm[3], 0>>
